@@ -330,6 +330,7 @@ pub const FLOORS: &[&str] = &[
     "pairs:neighbours_and_duplicates",
     "pairs_real:IntOfLogPoly4",
     "value_level_checks",
+    "documented_rejection_nan_breakpoint_mid_merge",
 ];
 
 pub fn run(a: &Args, m: &mut Mon) {
@@ -369,6 +370,26 @@ pub fn run(a: &Args, m: &mut Mon) {
                 }
             }
         };
+        if k % 97 == 13 {
+            let mut bad: Vec<f64> = (0..r.usize(2, 9)).map(|i| i as f64).collect();
+            let at = r.usize(1, bad.len() - 1);
+            bad[at] = f64::NAN;
+            let good: Vec<f64> = (0..r.usize(1, 9)).map(|i| i as f64 + 0.5).collect();
+            let (pb, pg) = (pair_pw(&bad, true), pair_pw(&good, false));
+            pair_budget(64);
+            let r1 = guard(|| &pb - &pg).is_err();
+            let r2 = guard(|| &pg + &pb).is_err();
+            pair_budget(i64::MAX);
+            m.count("documented_rejection_nan_breakpoint_mid_merge");
+            if r1 || r2 {
+                m.count("documented_rejection_panicked");
+            }
+            let z = IntOfLogPoly4::default();
+            let rb = Piecewise { segments: bad.iter().map(|e| Segment { end: *e, poly: z }).collect::<Vec<_>>() };
+            let rg = Piecewise { segments: good.iter().map(|e| Segment { end: *e, poly: z }).collect::<Vec<_>>() };
+            let _ = guard(|| &rb - &rg);
+            let _ = guard(|| &rg + &rb);
+        }
         let (f, _c) = gen_ends_any(&mut r, nf);
         let (g, class) = gen_second(&mut r, &f);
         if r.chance(0.5) {
